@@ -31,7 +31,7 @@ TRUSTED = ['PrettyMIDI.write sorts events of each track; pm.<list>.append is a b
            'ties among equal time keys are outside the property (its precondition excludes coinciding same-kind events)']
 NOT_DECIDED = ['behaviour for ties between equal sort keys', 'floating-point summation order']
 ASSUMPTIONS = ['quantized inputs of extractors were produced by quantize_note_sequence (single writer of quantization_info, checked)']
-FLOORS = {'ORD/traversal': 30, 'ORD/sorted-traversal': 14, 'ORD/positional': 10}
+FLOORS = {'ORD/traversal': 30, 'ORD/sorted-traversal': 14, 'ORD/positional': 10, 'TIE/note-sort': 10}
 
 SCOPE = [
     ('sequences_lib:quantize_note_sequence', ['note_sequence']),
@@ -138,6 +138,49 @@ def run(ctx):
                why_ok or ('storage-order traversal of %s with an order-insensitive body' % s.prov.detail
                           if s.kind == 'traversal' else 'whole-container or just-added-element access'), construct=s.what)
 
+  tie_rule(ctx)
+
+
+# ------------------------------------------------------------------ ties among equal sort keys
+# (function, residual field) -> why tied notes that differ in this field still give the same result.  Confirmed by reading;
+# a field outside this table that the consumer uses order-sensitively, and that the sort key does not order, is a violation.
+TIE_ALLOW = {
+    ('sequences_lib:_extract_subsequences', 'end_time'):
+        'the statements under the carried subsequence index truncate the copy of the note just appended (the iteration\'s own object) and '
+        'max-extend total_time; the index itself is advanced from start_time (the sort key) only',
+    ('sequences_lib:sequence_to_pianoroll', 'end_time'):
+        'the end time only selects the rows that are painted; what is painted is a constant, the key-ordered velocity, or a weight that depends on the '
+        'row alone, so notes that tie in (start_time, velocity) paint equal values wherever they overlap',
+    ('pianoroll_lib:PianorollSequence._from_quantized_sequence', 'quantized_end_step'):
+        'the end step only selects the rows painted with the constant 1 (a union); the cleared row start-1 is determined by the sort key',
+}
+
+
+def tie_rule(ctx):
+  from sa import ties
+  nsites = 0
+  for fq, _params in SCOPE:
+    fi = ctx.func(fq)
+    for site in ties.analyse_function(fi):
+      nsites += 1
+      keytxt = norm_text(site.key)
+      ctx.require(bool(site.loops), '%s: the consumer of sorted(..., key=%s) was not found: cannot decide ties' % (fq, keytxt))
+      if not site.residual:
+        ctx.ob('TIE/note-sort', fi, site.call, True, 'notes that tie under %s are indistinguishable wherever the consumer is order-sensitive' % keytxt,
+               construct='%s: ties under the note sort key' % fi.qualname)
+        continue
+      for f, lst in sorted(site.residual.items()):
+        addr = all(s.kind.startswith('store into shared') and ties.address_only(ctx, fi, site, s, f) for s in lst)
+        reason = 'different %s address different cells' % f if addr else TIE_ALLOW.get((fq, f))
+        first = lst[0]
+        ok = reason is not None
+        ctx.ob('TIE/note-sort', fi, first.stmt if not ok else site.call, ok,
+               'ties under %s may differ in %s: %s' % (keytxt, f, reason) if ok else
+               'notes that tie under the sort key %s are visited in storage order, and the consumer distinguishes them by %s in an order-sensitive way (%s: %s): '
+               'the result depends on the order in which the notes are stored' % (keytxt, f, first.kind, norm_text(first.stmt)[:100]),
+               construct='%s: ties under the note sort key may differ in %s' % (fi.qualname, f))
+  ctx.require(nsites >= 9, 'only %d note sorts found in the C12 scope (9 confirmed by hand)' % nsites)
+
 
 # ------------------------------------------------------------------ allow list
 def allow(ctx, fi, o, site):
@@ -227,6 +270,13 @@ def single_writer_check(ctx):
 
 SL = 'note_seq/sequences_lib.py'
 MUTANTS = [
+    Mutant('seed C12_b: Performance notes sorted by start time only', 'note_seq/performance_lib.py', "        notes, key=lambda note: (note.start_time, note.pitch, note.velocity))", "        notes, key=lambda note: note.start_time)", rule='TIE/note-sort'),
+    Mutant('Performance: velocity tie-break removed (the defect fixed in 678d6e8)', 'note_seq/performance_lib.py', "        notes, key=lambda note: (note.start_time, note.pitch, note.velocity))", "        notes, key=lambda note: (note.start_time, note.pitch))", rule='TIE/note-sort'),
+    Mutant('NotePerformance: tie-breaks removed', 'note_seq/performance_lib.py', "        notes, key=lambda note: (note.start_time, note.pitch, note.velocity,\n                                 note.end_time))", "        notes, key=lambda note: (note.start_time, note.pitch))", rule='TIE/note-sort'),
+    Mutant('Melody: end-step tie-break removed (the defect fixed in a0e47e5)', 'note_seq/melodies_lib.py', "                   key=lambda note: (note.quantized_start_step, -note.pitch,\n                                     note.quantized_end_step))", "                   key=lambda note: (note.quantized_start_step, -note.pitch))", rule='TIE/note-sort'),
+    Mutant('Melody: notes sorted by start step only (highest-pitch rule now depends on storage order)', 'note_seq/melodies_lib.py', "                   key=lambda note: (note.quantized_start_step, -note.pitch,\n                                     note.quantized_end_step))", "                   key=lambda note: note.quantized_start_step)", rule='TIE/note-sort'),
+    Mutant('pianoroll: velocity tie-break removed (the defect fixed in 5ea5f83)', SL, "  for note in sorted(sequence.notes, key=lambda n: (n.start_time, n.velocity)):", "  for note in sorted(sequence.notes, key=lambda n: n.start_time):", rule='TIE/note-sort'),
+    Mutant('extract: an extra tie-break in the note sort (harmless)', SL, 'for note in sorted(sequence.notes, key=lambda note: note.start_time):', 'for note in sorted(sequence.notes, key=lambda note: (note.start_time, note.pitch)):', expect='silent'),
     Mutant('extract: notes traversed unsorted', SL, 'for note in sorted(sequence.notes, key=lambda note: note.start_time):', 'for note in sequence.notes:', rule='ORD/'),
     Mutant('extract: state events traversed unsorted', SL, '    for event in sorted(events, key=lambda event: event.time):\n      if event.time <= split_times[0]:',
            '    for event in events:\n      if event.time <= split_times[0]:', rule='ORD/'),
